@@ -255,9 +255,70 @@ def doGates (a : Json) : Except String Json := do
   | none => pure Json.null
   | some g => pure (Json.arr (g.map fun (n, b) => Json.arr #[J.hex n, J.bool b]).toArray)
 
+/-! ## controller level -/
+
+def decodeCOp (j : Json) : Except String COp := do
+  match ← J.getStr j "op" with
+  | "write" => pure (.write (← decodeObj (← J.getObj j "obj")))
+  | "delete" => pure (.delete (← J.getHex j "name"))
+  | "deliver" =>
+    let ord := match J.getHexList j "ord" with
+      | .ok l => l
+      | .error _ => []
+    pure (.deliver (← J.getNat j "item") ord)
+  | o => throw s!"unknown op {o}"
+
+/-- observation of the controller after an op: pending queue, which cluster each host resolves to, and for every
+    cluster name of the universe: is something pending for it, the observation of the `ClusterInfo` served under
+    its name (when that is a `ClusterInfo` of this cluster), and what the lister's object prescribes -/
+def encodeCtl (env : Env) (conn : Conn) (u : Universe) (hosts cnames : List Str) (st : Ctl) : Json :=
+  J.obj [
+    ("pending", J.hexList st.queue),
+    ("resolve", Json.arr (hosts.map fun h => Json.arr #[J.hex h,
+        match st.get env h with
+        | some (_, c) => J.hex c.cluster
+        | none => Json.null]).toArray),
+    ("clusters", Json.arr (cnames.map fun n =>
+      J.obj [("name", J.hex n),
+             ("pending", J.bool (st.queue.any (· == n))),
+             ("served", match st.get env n with
+                        | some (_, c) => if c.cluster = env.lower n then encodeCI env u c else Json.null
+                        | none => Json.null),
+             ("expected", match alookup n st.lister with
+                          | some o => encodeObs u (expected env conn o) none
+                          | none => Json.null)]).toArray)]
+
+def runCtl (env : Env) (conn : Conn) (u : Universe) (hosts cnames : List Str) : Option Ctl → List COp → List Json
+  | _, [] => []
+  | none, _ :: r => J.obj [("result", Json.str "dead")] :: runCtl env conn u hosts cnames none r
+  | some st, op :: r =>
+    let result := match op with
+      | .deliver i ord =>
+        match st.queue[i]? with
+        | none => "skip"
+        | some name =>
+          match syncUpstreamCluster env conn st name ord with
+          | .crash => "crash"
+          | .requeue _ => "requeue"
+          | .done _ => "done"
+      | _ => "ok"
+    match st.step env conn op with
+    | none => J.obj [("result", Json.str "crash")] :: runCtl env conn u hosts cnames none r
+    | some st' => J.obj [("result", Json.str result), ("state", encodeCtl env conn u hosts cnames st')] ::
+        runCtl env conn u hosts cnames (some st') r
+
+def doCtl (a : Json) : Except String Json := do
+  let env ← decodeEnv (← J.getObj a "env")
+  let conn ← decodeConn (← J.getObj a "conn")
+  let ops ← (← J.getArr a "ops").toList.mapM decodeCOp
+  let u : Universe := ⟨← J.getHexList a "eps", ← J.getHexList a "names",
+    ← (← J.getArr a "probes").toList.mapM KG.Driver.C01.decodeAttrs⟩
+  pure (Json.arr (runCtl env conn u (← J.getHexList a "hosts") (← J.getHexList a "cnames") (some Ctl.init) ops).toArray)
+
 def handle (m : String) (a : Json) : Option (Except String Json) :=
   match m with
   | "run" => some (doRun a)
+  | "ctl" => some (doCtl a)
   | "gates" => some (doGates a)
   | _ => none
 
